@@ -88,6 +88,8 @@ func sortCues(cs []tcue) {
 	})
 }
 
+func astikitBoolPtr(b bool) *bool { return &b }
+
 func c10Check(cs []tcue, f int64, spare int, styled bool) string {
 	sub := astisub.NewSubtitles()
 	sub.Items = make([]*astisub.Item, 0, len(cs)+spare)
@@ -98,6 +100,9 @@ func c10Check(cs []tcue, f int64, spare int, styled bool) string {
 		t := c.T
 		if styled {
 			t = fmt.Sprintf("%s#%d", c.T, k)
+			if k%3 == 2 {
+				t = fmt.Sprintf("%s Caf\xe9#%d", c.T, k) // a script saved in a one-byte code page: the bytes are the text
+			}
 		}
 		it := textItem(time.Duration(c.S), time.Duration(c.E), t)
 		if styled {
@@ -113,6 +118,18 @@ func c10Check(cs []tcue, f int64, spare int, styled bool) string {
 	}
 	in := cuesOf(sub.Items)
 	someMetadata(sub, len(cs)+int(f%7))
+	if styled && len(cs)%2 == 0 {
+		// the list has been merged into another one that knew the same identifiers under other settings (the receiver's
+		// definitions won in the tables): the cues still refer to their own definitions
+		if sub.Styles == nil {
+			sub.Styles = map[string]*astisub.Style{}
+		}
+		if sub.Regions == nil {
+			sub.Regions = map[string]*astisub.Region{}
+		}
+		sub.Styles["st"] = &astisub.Style{ID: "st", InlineStyle: &astisub.StyleAttributes{WebVTTAlign: "left", SSABold: astikitBoolPtr(true)}}
+		sub.Regions["rg"] = &astisub.Region{ID: "rg", InlineStyle: &astisub.StyleAttributes{WebVTTWidth: "11%", WebVTTLines: 7}}
+	}
 	if spare == 8 && len(cs)%2 == 1 {
 		// the list has been ordered and fragmented before and was re-timed in place since
 		if p := guard(func() { prewarm(sub) }); p != "" {
